@@ -17,12 +17,12 @@ const (
 
 func init() {
 	register(&Property{
-		ID:  "C20",
-		Run: runC20,
-		Explain: "Typestate by abstract interpretation over the collector's run loop (all paths of Run, the set-up, reload and internal shutdown functions; error-result sensitive): abstract state = (collector state ∈ {Starting,Running,Closing,Closed}) × (service ∈ {none,live,stopped}) × (config provider ∈ {live,stopped}). Decided: (R1) every write of the collector state is one of the allowed transitions and only the setter/constructor write it; every non-failure return of Run is in {Closed}; (R2) the service is never created while another one is live (no overlap), never started/shut down unless live (shut down exactly once per service), no return of Run leaves a live service behind, the config provider is shut down exactly once on every non-failure exit; the internal shutdown performs both shutdowns unconditionally between Closing and Closed; (R3) reload is stop-then-start and a failed stop returns before set-up; set-up creates the service only after config load and validation succeeded; (R4) a failed service start shuts that service down; (R5) the only close of the shutdown channel is under the {Running,Starting} state test in a function with a deferred recover().",
-		NotDecided: "Overlap freedom under concurrent external events as a history property; races between concurrent Shutdown() callers beyond the recover guard; that service.Shutdown itself stops every component (C10).",
-		Assumes:    []string{"Run is called once per Collector (documented)", "service.New returns a nil service iff it returns an error"},
-		Technique:  "static analysis: typestate abstract interpretation (finite domain, interprocedural summaries, error-result sensitive) + dominance/gating + who-may-call",
+		ID:          "C20",
+		Run:         runC20,
+		Explain:     "Typestate by abstract interpretation over the collector's run loop (all paths of Run, the set-up, reload and internal shutdown functions; error-result sensitive): abstract state = (collector state ∈ {Starting,Running,Closing,Closed}) × (service ∈ {none,live,stopped}) × (config provider ∈ {live,stopped}). Decided: (R1) every write of the collector state is one of the allowed transitions and only the setter/constructor write it; every non-failure return of Run is in {Closed}; (R2) the service is never created while another one is live (no overlap), never started/shut down unless live (shut down exactly once per service), no return of Run leaves a live service behind, the config provider is shut down exactly once on every non-failure exit; the internal shutdown performs both shutdowns unconditionally between Closing and Closed; (R3) reload is stop-then-start and a failed stop returns before set-up; set-up creates the service only after config load and validation succeeded; (R4) a failed service start shuts that service down; (R5) the only close of the shutdown channel is under the {Running,Starting} state test in a function with a deferred recover().",
+		NotDecided:  "Overlap freedom under concurrent external events as a history property; races between concurrent Shutdown() callers beyond the recover guard; that service.Shutdown itself stops every component (C10).",
+		Assumes:     []string{"Run is called once per Collector (documented)", "service.New returns a nil service iff it returns an error"},
+		Technique:   "static analysis: typestate abstract interpretation (finite domain, interprocedural summaries, error-result sensitive) + dominance/gating + who-may-call",
 		MultiConfig: true,
 	})
 }
@@ -679,7 +679,9 @@ func runC20(c *Ctx) {
 		if rsd == nil {
 			c.Anchor("confmap.Resolver.Shutdown")
 		} else {
-			ps := calls(rsd, func(ci ssa.CallInstruction) bool { return ci.Common().IsInvoke() && ci.Common().Method.Name() == "Shutdown" })
+			ps := calls(rsd, func(ci ssa.CallInstruction) bool {
+				return ci.Common().IsInvoke() && ci.Common().Method.Name() == "Shutdown"
+			})
 			ok := len(ps) == 1 && len(returnsOf(rsd)) == 1 && loopHasOnlyConditionExit(ps[0].Block())
 			agg := false
 			if ok {
